@@ -23,6 +23,7 @@ from .benchmark_suite import BenchmarkSuite
 from .exp_run_details import ExpRunDetails
 from .exp_variables import ExpVariables
 from .reporting import Reporting
+from ..configuration_error import ConfigurationError
 
 
 class Experiment(object):
@@ -94,6 +95,9 @@ class Experiment(object):
     def _compile_executors_and_benchmark_suites(self, executions, suites, configurator):
         # we now assemble the executors and the benchmark suites
         results = []
+        if executions is None:
+            raise ConfigurationError(
+                "The experiment %s does not define any executions." % self.name)
         for executor_cfg in executions:
             executor_name, executor_details = value_with_optional_details(executor_cfg)
 
@@ -106,6 +110,11 @@ class Experiment(object):
                 suites_for_executor = executor_details.get("suites", suites)
             else:
                 suites_for_executor = suites
+
+            if suites_for_executor is None:
+                raise ConfigurationError(
+                    "The experiment %s does not define the suites to be used with executor %s."
+                    % (self.name, executor_name))
 
             executor = configurator.get_executor(
                 executor_name, run_details, variables, self._action)
